@@ -22,9 +22,10 @@
 (* A record is ok when back, jdec, mread and mjson hold (text is reported  *)
 (* but a layout difference alone breaks no promise of the property).       *)
 (* Otherwise the second oracle M(KnownDev) is consulted: the record is     *)
-(* `known` when the real text is exactly what the deviating writer writes  *)
-(* and the real reader / JSON decoder did with it exactly what the reader  *)
-(* model / JSON grammar do with that text.                                 *)
+(* `known` when the deviations change what is written for this value and   *)
+(* the real reader / JSON decoder produced exactly what the reader model / *)
+(* JSON grammar make of the deviating writer's text (textK tells whether   *)
+(* the real text is byte for byte that text).                              *)
 (***************************************************************************)
 EXTENDS ValueText, Json
 
@@ -59,11 +60,10 @@ Verdict ==
            textK |-> (~text) /\ KnownDev # {} /\ ModelText(KnownDev) = Rec.text]
      ELSE LET tk == ModelText(KnownDev)
               known == /\ KnownDev # {}
-                       /\ tk = Rec.text
                        /\ tk # st
                        /\ Canon(Rec.back) = Canon(Read(tk))
                        /\ isJ => Canon(Rec.jdec) = Canon(JsonDecode(tk))
-          IN [i |-> ji, ok |-> FALSE, strict |-> flags, known |-> known,
+          IN [i |-> ji, ok |-> FALSE, strict |-> flags, known |-> known, textK |-> tk = Rec.text,
               kdevs |-> IF known THEN {d \in KnownDev : ModelText({d}) # st} ELSE {},
               model |-> st]
 
